@@ -162,6 +162,16 @@ def run(ck):
                 "lbl_pc": (0xC002, [("BANK", "A"), ("ID", idv)]), "lbl_rr": (0xC002, [("ID", "RAM")]), "lbl_pd": (0xC002, [("BANK", "2"), ("ID", idv)]), "lbl_zz": (0xC002, [])}
         cases.append({"arch": arch, "files": {"/w/main.asm": text}})
         meta.append((text, syms, []))
+    # the open block is a property of the program text, not of the file: it is still open after an @include returns
+    for arch in ("6502", "sm83", "z80"):
+        idv = {"6502": "PRG", "sm83": "ROM", "z80": "PRG"}[arch]
+        files = {"/w/main.asm": '@org $c000\n@meta "ID" "%s", "BANK" "1"\nlbl_la:\n@include "i.inc"\nlbl_lb:\n@defl lbl_dl, 5\n@endmeta\nlbl_lc:\n@include "i2.inc"\nlbl_ld:\n' % idv,
+                 "/w/i.inc": "lbl_li:\n@ds 1\n", "/w/i2.inc": '@meta "ID" "RAM"\nlbl_lj:\n'}
+        tagged = [("ID", idv), ("BANK", "1")]
+        syms = {"lbl_la": (0xC000, tagged), "lbl_li": (0xC000, tagged), "lbl_lb": (0xC001, tagged), "lbl_dl": (5, tagged), "lbl_lc": (0xC001, []),
+                "lbl_lj": (0xC001, [("ID", "RAM")]), "lbl_ld": (0xC001, [("ID", "RAM")])}
+        cases.append({"arch": arch, "files": files})
+        meta.append((files["/w/main.asm"], syms, []))
     for _ in range(6000 if thorough else 900):
         arch = rng.choice(asmk.ARCHES)
         text, syms, probes = gen(rng, arch)
